@@ -16,7 +16,7 @@ func init() {
 	property("C12",
 		"Static conformance of poryswitch selection: (a) every selector returns, for each case map, the entry under the -s value when that key is present and otherwise the entry under '_' (presence decided by the comma-ok bit, not by the value), parallel maps with the same key sequence, and fails under enableEnvironmentErrors when neither exists; (b) the header takes the value from compileSwitches[identifier] and errors for missing switches only under enableEnvironmentErrors; (c) parsing the cases can write only the token window, the scope stacks and the font cache of the Parser — nothing an unselected case produced can reach the program except through the case map; (d) '-s K=V' splits at the first '='.",
 		[]string{"scheme argument of DESIGN §4 C12", "balanced scope stacks (C20.a)"},
-		"C12.a", "C12.b", "C12.c", "C12.d", "C12.e", "C09.d", "C06.c")
+		"C12.a", "C12.b", "C12.c", "C12.d", "C12.e", "C09.d", "C06.c", "C12.f")
 	property("C13",
 		"Static conformance of constant substitution: (a) every token literal that is accumulated into an argument, operand, comparison value, case value, table-entry field, mart item or constant value passes through tryReplaceWithConstant (the only exceptions are literal parentheses); (b) names (identifiers, labels, map script names, movement steps) and text are never passed through it; (c) a constant is stored only after the duplicate check, its value is scanned up to the next top-level keyword; (d) the helper is a pure lookup that returns its argument when the name is not a constant.",
 		[]string{"that textual and token-wise replacement coincide for multi-token values is not decided"},
@@ -24,8 +24,9 @@ func init() {
 	property("C14",
 		"Static conformance of list handling: (a) a movement multiplier is accepted exactly in [1, 9999], must be an INT, and expands to exactly that many copies; (b) the movement emitter writes the terminator exactly once on every path and nothing after it; (c) the mart emitter writes '.align 2' first, stops at the first item equal to ITEM_NONE — tested on the very value it would write — and writes the terminator once, unconditionally, after the loop; items and their tokens are parallel; (d) list parsers append each identifier once and advance on every iteration.",
 		[]string{"go/ssa lowering is faithful to the source"},
-		"C14.a", "C14.b", "C14.c", "C14.d", "C06.b")
+		"C14.a", "C14.b", "C14.c", "C14.d", "C06.b", "C12.f")
 
+	register(&Rule{ID: "C12.f", Doc: "every parsed poryswitch case is recorded under its own name, whatever its content", Floor: 5, Run: c12f})
 	register(&Rule{ID: "C12.a", Doc: "selection protocol: value key if present else '_', comma-ok presence, error under environment errors", Floor: 8, Run: c12a})
 	register(&Rule{ID: "C12.b", Doc: "poryswitch header: value from compileSwitches[ident]; environment errors only in normal mode", Floor: 3, Run: c12b})
 	register(&Rule{ID: "C12.c", Doc: "case parsing writes only token window, scope stacks, font cache", Floor: 3, Run: c12c})
@@ -840,5 +841,82 @@ func c12e(c *Ctx) {
 			}
 		}
 		c.Check(ok && n > 0, fn.Name()+"/repeats-only-if-multiple", c.W.Pos(firstPos(head)), "the loop goes round again only when multiple items are allowed", "the item loop can repeat although only a single item is allowed (colon-form case): the following case label would be parsed as content of this case")
+	}
+}
+
+// c12f: the selection protocol (C12.a) tells "case present" from "case absent" by the
+// comma-ok flag of the case maps. That is only right if every case that was parsed is in the
+// map: in each of the three case parsers, every map that is returned is updated, under the
+// case's own name, on every successful path from the parse of the case content to the next
+// iteration — never only for some contents (an explicitly empty case is still a case).
+func c12f(c *Ctx) {
+	for _, name := range []string{"parser.Parser.parsePoryswitchStatementCases", "parser.Parser.parsePoryswitchTextCases", "parser.Parser.parsePoryswitchListCases"} {
+		fn := c.Fn(name)
+		if fn == nil {
+			continue
+		}
+		var maps []*ssa.MakeMap
+		instrs(fn, func(in ssa.Instruction) {
+			if m, ok := in.(*ssa.MakeMap); ok {
+				for _, r := range returnsOf(fn) {
+					for _, res := range r.Results {
+						if res == ssa.Value(m) {
+							maps = append(maps, m)
+							return
+						}
+					}
+				}
+			}
+		})
+		if len(maps) == 0 {
+			c.Bad(fn.Name()+"/case-maps", c.W.FuncPos(fn), "no case map is built and returned")
+			continue
+		}
+		keyT := ""
+		for mi, m := range maps {
+			var ups []*ssa.MapUpdate
+			instrs(fn, func(in ssa.Instruction) {
+				if u, ok := in.(*ssa.MapUpdate); ok && u.Map == ssa.Value(m) {
+					ups = append(ups, u)
+				}
+			})
+			key := fmt.Sprintf("%s/map#%d", fn.Name(), mi)
+			if len(ups) == 0 {
+				c.Bad(key+"/recorded", c.W.Pos(m.Pos()), "a returned case map is never filled")
+				continue
+			}
+			isUp := func(in ssa.Instruction) bool {
+				u, ok := in.(*ssa.MapUpdate)
+				return ok && u.Map == ssa.Value(m)
+			}
+			for ui, u := range ups {
+				kt := c.term(fn, u.Key)
+				if keyT == "" {
+					keyT = kt
+				}
+				c.Check(kt == keyT && strings.HasSuffix(kt, ".Literal"), fmt.Sprintf("%s/update#%d/key", key, ui), c.W.Pos(u.Pos()), "recorded under the case's own name", "a case is recorded under "+pretty(kt)+"; expected the literal of the case token ("+pretty(keyT)+")")
+				// the parse whose result is stored
+				var parse ssa.Instruction
+				v := u.Value
+				if ex, ok := v.(*ssa.Extract); ok {
+					v = ex.Tuple
+				}
+				if call, ok := v.(*ssa.Call); ok {
+					parse = call
+				}
+				if parse == nil {
+					c.Bad(fmt.Sprintf("%s/update#%d/value", key, ui), c.W.Pos(u.Pos()), "the recorded value is not the result of the case content parse")
+					continue
+				}
+				head := loopHeaders(fn)[parse.Block()]
+				_, skip := existsPath(pathQuery{from: after(parse), avoid: isUp, edgeOK: notErrorEdge, target: func(in ssa.Instruction) bool {
+					if r, ok := in.(*ssa.Return); ok {
+						return isSuccessReturn(r)
+					}
+					return head != nil && in.Block() == head && in == head.Instrs[0]
+				}})
+				c.Check(!skip, fmt.Sprintf("%s/update#%d/unconditional", key, ui), c.W.Pos(u.Pos()), "every successfully parsed case is recorded before the next case is read", "after the case content was parsed, the next iteration (or the return) can be reached without the case being recorded: an explicitly empty or otherwise special case would look absent and the '_' case would be used instead")
+			}
+		}
 	}
 }
